@@ -270,6 +270,171 @@ def build_alias(rng, w, plans, calls_per_action, noise=True):
 
 
 
+# ------------------------------------------------------------------------------------------------ wave 3: process-level sequences
+# The class seeded/C20_E needed: ONE parsed Domain whose Action objects are reused across many groundings and EDITED IN PLACE through the
+# library's own API between them (a learner refines the schema between observations): ground call c, edit the schema (add / remove a
+# precondition literal, a nested group, a numeric condition, an add / delete effect, a numeric effect, a literal of a 'when' branch, rename
+# parameters with change_signature -- and back), ground c again (a fresh Operator, or the SAME Operator object grounded again), ground
+# other calls in between (seen before / never seen).  Every report is judged against the schema AS IT IS AT THAT MOMENT: the op re-dumps
+# the domain's actions with the library's exporter after every edit, and the model and the spec ground that text.
+def has_empty_forall(t):
+    if isinstance(t, list):
+        if t and t[0] == "forall" and len(t) == 3 and isinstance(t[2], list) and len(t[2]) <= 1:
+            return True           # exported as nothing (finding D83 of C08): not the subject here
+        return any(has_empty_forall(x) for x in t)
+    return False
+
+
+def header_text(w, rng, noise=True):
+    """the domain text up to (and without) its actions and its closing parenthesis"""
+    head = [x for x in w.domain_tree("dom") if not (isinstance(x, list) and x and x[0] == ":action")]
+    txt = G.render(head, rng, noise).rstrip()
+    assert txt.endswith(")")
+    return txt[:-1]
+
+
+EDIT_KINDS = ["add_pre_lit", "add_pre_lit", "remove_pre_lit", "remove_pre_lit", "add_pre_group", "add_pre_num", "remove_pre_num",
+              "add_eff_lit", "add_eff_lit", "discard_eff_lit", "discard_eff_lit", "add_eff_num", "discard_eff_num",
+              "when_add_ante", "when_add_eff", "rename", "rename"]
+
+
+PRE_EDIT_KINDS = ["add_pre_lit", "add_pre_lit", "remove_pre_lit", "remove_pre_lit", "add_pre_group", "add_pre_num", "remove_pre_num",
+                  "rename", "add_eff_lit", "discard_eff_lit"]
+
+
+def gen_edit(rng, w, a, cur, fresh, kinds=EDIT_KINDS):
+    """one edit step for action a (generator's dict, original parameter names); cur: original -> current parameter name"""
+    scope = [(cur.get(pn, pn), t) for pn, t in a["params"]]
+    kind = rng.choice(kinds)
+    seed = rng.randrange(1000)
+    if kind in ("add_pre_lit", "add_eff_lit", "when_add_ante", "when_add_eff"):
+        atom = G.gen_atom(rng, w, scope)
+        if atom is None:
+            return None
+        return {"edit": kind, "name": atom[0], "args": atom[1:], "pos": rng.random() < 0.6, "seed": seed}
+    if kind == "add_pre_group":
+        atoms = [x for x in (G.gen_atom(rng, w, scope) for _ in range(2)) if x]
+        if not atoms:
+            return None
+        return {"edit": kind, "op": rng.choice(["or", "or", "and"]), "lits": [[x[0], x[1:], rng.random() < 0.6] for x in atoms]}
+    if kind in ("add_pre_num", "add_eff_num"):
+        fl = G.gen_fluent(rng, w, scope)
+        if fl is None or len(set(fl[1:])) < len(fl[1:]):
+            return None
+        if kind == "add_pre_num":
+            return {"edit": kind, "tokens": [rng.choice([">=", "<=", "<", ">"]), fl, rng.choice(G.DOMAIN_NUMERALS)]}
+        rhs = rng.choice(G.DOMAIN_NUMERALS)
+        if rng.random() < 0.4:
+            rhs = [rng.choice(["+", "*", "-"]), fl, rhs]
+        return {"edit": kind, "tokens": [rng.choice(["assign", "increase", "decrease"]), fl, rhs]}
+    if kind in ("remove_pre_lit", "remove_pre_num", "discard_eff_lit", "discard_eff_num"):
+        return {"edit": kind, "seed": seed}
+    if kind == "rename":
+        if not a["params"]:
+            return None
+        k = rng.randint(1, min(2, len(a["params"])))
+        olds = rng.sample([pn for pn, _ in a["params"]], k)
+        m = {}
+        for pn in olds:
+            fresh[0] += 1
+            m[cur.get(pn, pn)] = "?n%d" % fresh[0]
+            cur[pn] = "?n%d" % fresh[0]
+        return {"edit": "rename", "map": m}
+    return None
+
+
+def gen_sequence(rng, w, objs, nrounds, kind="ground", nstates=0):
+    """steps for the sequence op; None when no action can be called"""
+    calls = {a["name"]: G.calls_for(rng, w, objs, a, limit=3) for a in w.actions}
+    acts = [a for a in w.actions if calls[a["name"]] and not a.get("oof")]
+    if not acts:
+        return None
+    steps = []
+    cur = {a["name"]: {} for a in acts}
+    fresh = [0]
+
+    def observe(a, c, mode="fresh"):
+        st = {"kind": kind, "action": a["name"], "args": c, "mode": mode}
+        if kind == "app":        # mostly the same state for the same call, so that the answers before and after an edit compare
+            st["state"] = rng.randrange(nstates) if rng.random() < 0.3 else calls[a["name"]].index(c) % nstates
+        steps.append(st)
+    for a in acts:
+        for c in calls[a["name"]][:2]:
+            observe(a, c)
+    for _ in range(nrounds):
+        a = rng.choice(acts)
+        cs = calls[a["name"]]
+        before = dict(cur[a["name"]])
+        ed = gen_edit(rng, w, a, cur[a["name"]], fresh, PRE_EDIT_KINDS if kind == "app" else EDIT_KINDS)
+        if ed is None:
+            continue
+        steps.append(dict(ed, kind="edit", action=a["name"]))
+        observe(a, cs[0])                                      # the call grounded before the edit, in a fresh Operator
+        if rng.random() < 0.5:
+            observe(a, cs[0], "reuse")                         # and in the Operator object that grounded it before
+        if len(cs) > 1:
+            observe(a, cs[1], rng.choice(["fresh", "reuse"]))
+        if len(cs) > 2 and rng.random() < 0.5:
+            observe(a, cs[2])                                  # a call that may not have been seen before
+        others = [b for b in acts if b is not a]
+        if others and rng.random() < 0.4:
+            b = rng.choice(others)
+            observe(b, rng.choice(calls[b["name"]]))
+        if ed["edit"] == "rename" and rng.random() < 0.7:      # and back
+            back = {new: old for old, new in ed["map"].items()}
+            cur[a["name"]].clear()
+            cur[a["name"]].update(before)
+            steps.append({"kind": "edit", "action": a["name"], "edit": "rename", "map": back})
+            observe(a, cs[0], rng.choice(["fresh", "reuse"]))
+    return steps
+
+
+def build_sequence(rng, nrounds):
+    """a world of the ordinary or of the alias stream, with a sequence of groundings and in-place edits"""
+    for _ in range(50):
+        if rng.random() < 0.3:
+            w, _plans = gen_alias_world(rng)
+        else:
+            w = gen_world20(rng)
+        if any(has_empty_forall(a["pre"]) or has_empty_forall(a["eff"]) or a.get("oof") for a in w.actions):
+            continue
+        objs = G.gen_objects(rng, w, n=rng.choice([2, 3, 3]))
+        steps = gen_sequence(rng, w, objs, nrounds)
+        if steps is None:
+            continue
+        w.features.add("sequence")
+        return {"domain_text": G.render(w.domain_tree("dom"), rng, True), "header_text": header_text(w, rng),
+                "problem_text": objects_problem(objs), "objects": [list(o) for o in objs], "steps": steps,
+                "features": sorted(w.features)}
+    raise RuntimeError("no world with a callable action in 50 attempts")
+
+
+def sequence_worlds(seq, res):
+    """the judged form of a sequence: per epoch (the domain as exported after an edit) one pseudo world whose probes are the ground steps
+    observed in that epoch"""
+    if "epochs" not in res:
+        raise RuntimeError("the implementation rejected a generated sequence world: %r\n%s" % (
+            {k: res.get(k) for k in ("parse_raised", "problem_raised", "raised", "msg")}, seq["domain_text"]))
+    per = {}
+    edits = []
+    for k, (st, r) in enumerate(zip(seq["steps"], res["steps"])):
+        if st["kind"] == "edit":
+            if "edit_raised" in r:
+                raise RuntimeError("an edit through the library's API raised: %r %r" % (st, r))
+            edits.append((st["edit"], bool(r.get("done"))))
+            continue
+        per.setdefault(r["epoch"], []).append((k, st, r))
+    worlds, results = [], []
+    for e in sorted(per):
+        ep = res["epochs"][e]
+        probes = [{"action": st["action"], "args": st["args"], "mode": st.get("mode"), "step": k, "epoch": e, "reused": bool(r.get("reused"))}
+                  for k, st, r in per[e]]
+        worlds.append({"domain_text": ep["text"], "objects": seq["objects"], "problem_text": seq["problem_text"], "probes": probes,
+                       "features": seq["features"], "world": None, "sequence": {k: v for k, v in seq.items() if k != "op"}})
+        results.append({"nums": ep["nums"], "probes": [r["obs"] for _, _, r in per[e]]})
+    return worlds, results, edits
+
+
 # ------------------------------------------------------------------------------------------------ round 3: outside the fragment
 # A literal with fewer / more arguments than its predicate declares passes the domain parser and must make every grounding of
 # its action raise (ValueError; the code used to truncate or pad with the domain's constants -- requests/C02.md R2, D46).
@@ -435,9 +600,9 @@ def klass_of(wd, pr, unit):
     """which open finding class a not-ok verdict of this unit would belong to (rough, for attribution only)"""
     w = wd.get("world")
     if w is None:
-        if wd.get("witness_of") or not wd.get("fixture"):
+        if wd.get("witness_of") or not (wd.get("fixture") or wd.get("sequence")):
             return wd.get("witness_of")
-        return "D38" if "forall" in wd["domain_text"].lower() else "D07"     # fixtures: Coq's classifier decided 'known'
+        return "D38" if "forall" in wd["domain_text"].lower() else "D07"     # fixtures, sequences: Coq's classifier decided 'known'
     a = [x for x in w.actions if x["name"] == pr["action"]][0]
     if unit == 0:
         return "D38" if has_forall(a["pre"]) else "D07"
@@ -492,12 +657,15 @@ def run(args):
     rng = random.Random(args.seed * 104729 + 20)
     cfg = run_impl([{"op": "core.numeric_config"}], nproc=1)[0]
     fixture_only = None
+    seqs = []
     if args.replay:
         data = json.load(open(args.replay))
         wd = data["input"]["world"]
         wd.setdefault("world", None)
         if wd.get("fixture"):
             fixture_only, worlds = wd, []
+        elif wd.get("sequence"):
+            seqs, worlds = [wd["sequence"]], []
         else:
             worlds = [wd]
     else:
@@ -508,26 +676,49 @@ def run(args):
         for _ in range({"quick": 50, "thorough": 300}[args.tier]):
             aw, plans = gen_alias_world(rng)
             worlds.append(build_alias(rng, aw, plans, calls))
+        seqs = [build_sequence(rng, rng.randint(3, 6)) for _ in range({"quick": 36, "thorough": 240}[args.tier])]
     hashseeds = [0] if args.tier == "quick" else [0, 1, 2]
     stats = {"worlds": 0, "calls": 0, "calls_with_repeated_object": 0, "calls_with_constant_argument": 0,
              "calls_with_subtype_argument": 0, "calls_binding_one_object_to_twin_terms": 0,
              "collections_same_untyped_different_typed": 0, "collections_same_typed_reported_twice": 0, "pre_literals": 0, "pre_lifted_literals": 0, "pre_numeric": 0, "eq_pairs": 0,
              "effect_groups": 0, "effect_literals": 0, "effect_numeric": 0, "typed_call_raised": 0, "ground_raised": 0, "ground_raised_arity_mismatch": 0,
-             "features": {}}
+             "features": {}, "sequence_worlds": 0, "sequence_ground_steps": 0, "sequence_ground_steps_same_operator_object": 0,
+             "sequence_edits_done": {}, "sequence_edits_without_effect": {}, "sequence_regrounded_calls": 0,
+             "sequence_regrounded_calls_whose_report_changed": 0}
     lits, units, cases = [], [], []
     streams = []
-    for hs in hashseeds:
+    for si, hs in enumerate(hashseeds):
         jobs = [{"op": "c20.world", "domain_text": wd["domain_text"], "problem_text": wd["problem_text"],
                  "probes": wd["probes"]} for wd in worlds]
-        streams.append((hs, worlds, run_impl(jobs, hashseed=hs)))
+        streams.append((hs, worlds, run_impl(jobs, hashseed=hs), si == 0))
+        if seqs:
+            sw, sr = [], []
+            for seq, res in zip(seqs, run_impl([dict(q, op="c20.sequence") for q in seqs], hashseed=hs)):
+                ws1, rs1, edits = sequence_worlds(seq, res)
+                sw += ws1
+                sr += rs1
+                if si == 0:
+                    stats["sequence_worlds"] += 1
+                    for kind, done in edits:
+                        row = stats["sequence_edits_done" if done else "sequence_edits_without_effect"]
+                        row[kind] = row.get(kind, 0) + 1
+                    last = {}
+                    for wd1, r1 in zip(ws1, rs1):
+                        for pr, ob in zip(wd1["probes"], r1["probes"]):
+                            stats["sequence_ground_steps"] += 1
+                            stats["sequence_ground_steps_same_operator_object"] += 1 if pr["reused"] else 0
+                            key = (pr["action"], tuple(pr["args"]))
+                            txt = json.dumps(ob.get("value", ob), sort_keys=True)
+                            if key in last and last[key][0] != pr["epoch"]:
+                                stats["sequence_regrounded_calls"] += 1
+                                stats["sequence_regrounded_calls_whose_report_changed"] += 1 if last[key][1] != txt else 0
+                            last[key] = (pr["epoch"], txt)
+            streams.append((hs, sw, sr, si == 0))
     if fixture_only is not None or not args.replay:
         fw, fr = fixture_worlds(rng, args.tier, fixture_only)
-        streams.append((hashseeds[0] if worlds else -1, fw, fr))
+        streams.append((hashseeds[0] if worlds else -1, fw, fr, True))
         stats["fixtures"] = len(fw)
-    first = True
-    for hs, ws, results in streams:
-        count = first or ws is not worlds
-        first = False
+    for hs, ws, results, count in streams:
         for wd, res in zip(ws, results):
             if "probes" not in res:
                 raise RuntimeError("the implementation rejected a generated world: %r\n%s" % (
@@ -545,6 +736,7 @@ def run(args):
                 for unit, uname in enumerate(("precondition", "effects", "call")):
                     inp = {"world": {"domain_text": wd["domain_text"] if not wd.get("fixture") else None, "objects": wd["objects"],
                                      "problem_text": wd["problem_text"], "fixture": wd.get("fixture"),
+                                     "sequence": wd.get("sequence"),
                                      "probes": [pr], "features": wd["features"]},
                            "unit": uname, "hashseed": hs, "implementation": r}
                     wit = wd.get("witness_of")
